@@ -2,7 +2,7 @@
    Each is closed by [exact <lemma>] (or a two-line combination of lemmas) and followed by Print Assumptions.
    PD's behaviour is an explicit hypothesis:  pd : nat -> Z  is the sequence of timestamps PD hands out,
    pd_strict says it is strictly increasing. *)
-From Verif Require Import Oracle.Model Oracle.ModelSys Oracle.ModelVal Oracle.ModelInt Oracle.ProofsArith Oracle.ProofsSys Oracle.ProofsVal Oracle.ProofsInt Oracle.ProofsSeq.
+From Verif Require Import Oracle.Model Oracle.ModelSys Oracle.ModelVal Oracle.ModelInt Oracle.ProofsArith Oracle.ProofsSys Oracle.ProofsVal Oracle.ProofsInt Oracle.ProofsSeq Oracle.ProofsFresh.
 From Coq Require Import Lia.
 Open Scope Z_scope.
 
@@ -139,6 +139,41 @@ Theorem C13_validate_cancel_isolated : forall (pd : nat -> Z) (u : nat) retry n 
   voutcome_of (vrun pd retry (init_vsys n) es) u <> Some OErr.
 Proof. intros pd u retry n es H. exact (cancel_isolated pd u retry n es H). Qed.
 Print Assumptions C13_validate_cancel_isolated.
+
+(* --- first use of a txn scope: init_sys n has NO entry for the scope; every caller runs lastTSMap.Load and, on a
+       miss, LoadOrStore as separate interleavable steps.  For any number n of concurrent FIRST callers and any
+       interleaving: the cached value starts absent, is installed at most by the one LoadOrStore that still finds no
+       entry (the losers keep the winner's record and fall into the CAS loop), once installed it stays, it never
+       decreases and is always a timestamp PD issued --- *)
+Theorem C13_fresh_scope : forall (pd : nat -> Z) n es1 es2,
+  let s1 := run pd (init_sys n) es1 in
+  let s2 := run pd s1 es2 in
+  lowres (init_sys n) = None /\
+  (lowres s1 <> None -> lowres s2 <> None) /\
+  ole (lowres s1) (lowres s2) /\
+  (forall v, lowres s2 = Some v -> exists i, (i < issued s2)%nat /\ v = pd i) /\
+  (forall t th ts, nth_error (thr s1) t = Some th -> tpc th = PLoadOrStore ts ->
+     (cell s1 = None -> cell (step pd s1 (Ev t)) = Some (t, ts)) /\
+     (forall c, cell s1 = Some c -> cell (step pd s1 (Ev t)) = Some c) /\
+     exists th', nth_error (thr (step pd s1 (Ev t))) t = Some th' /\ tpc th' = PLoad ts).
+Proof.
+  intros pd n es1 es2 s1 s2. destruct (C13_lastts_monotone pd n es1 es2) as [M B]. fold s1 s2 in M, B.
+  split; [reflexivity|]. split; [|split; [exact M|split; [exact B|]]].
+  - unfold lowres. intros H1 H2. apply (cell_stays_run pd es2 s1); [destruct (cell s1) as [[o v]|]; congruence|].
+    fold s2. destruct (cell s2) as [[o v]|]; congruence.
+  - intros t th ts Ht Hp. exact (load_or_store_spec pd s1 t th ts Ht Hp).
+Qed.
+Print Assumptions C13_fresh_scope.
+
+(* publishing the first timestamp of a scope with Store + return instead (two first callers, both miss, the newer
+   one stores, the older one stores last) makes the cached value go back *)
+Theorem C13_fresh_scope_store_refuted :
+  exists (pd : nat -> Z), (forall i j, (i < j)%nat -> pd i < pd j) /\
+  exists n es1 es2 v1 v2,
+    lowres (fold_left (step_store pd) es1 (init_sys n)) = Some v1 /\
+    lowres (fold_left (step_store pd) (es1 ++ es2) (init_sys n)) = Some v2 /\ v2 < v1.
+Proof. exact store_variant_refuted. Qed.
+Print Assumptions C13_fresh_scope_store_refuted.
 
 (* --- the call-level model refines the CAS-level system: running the calls one after the other (each thread gets
        nine scheduler slots) publishes exactly what Model.set_last (publish the maximum) computes, every call returns
